@@ -39,6 +39,12 @@ type C16Sc struct {
 	// Stop: none | close | stoptraversing, injected before the reply to the StopAfter-th get_peers
 	Stop      string
 	StopAfter int
+	// QuiescentStop: none | close | stoptraversing - the consumer stops reading after PauseAfter
+	// deliveries; once the node is quiescent (every issued query has fully returned and up to Alpha
+	// responses are waiting to be taken from the peers channel) the stop is applied, then the consumer
+	// resumes. No reply can race this stop, so exactly-once delivery is asserted.
+	QuiescentStop string
+	PauseAfter    int
 }
 
 func genC16(t *rapid.T) C16Sc {
@@ -65,8 +71,13 @@ func genC16(t *rapid.T) C16Sc {
 	for i := 0; i < ns; i++ {
 		sc.Seeds = append(sc.Seeds, rapid.IntRange(0, n-1).Draw(t, "seed"))
 	}
-	sc.Stop = rapid.SampledFrom([]string{"none", "none", "none", "close", "stoptraversing"}).Draw(t, "stop")
-	sc.StopAfter = rapid.IntRange(1, 12).Draw(t, "stopafter")
+	sc.Stop = pick(t, "stop", "none", "none", "none", "none", "close", "stoptraversing")
+	sc.StopAfter = 1 + uniformInt(t, 12, "stopafter")
+	sc.QuiescentStop = "none"
+	if sc.Stop == "none" {
+		sc.QuiescentStop = pick(t, "qstop", "none", "none", "close", "stoptraversing")
+		sc.PauseAfter = uniformInt(t, 8, "pauseafter")
+	}
 	return sc
 }
 
@@ -209,9 +220,22 @@ func runC16(sc C16Sc, c *kit.Case) *kit.Violation {
 	}
 	var received []got
 	consumerDone := make(chan struct{})
+	paused, resume := make(chan struct{}), make(chan struct{})
 	go func() {
 		defer close(consumerDone)
-		for pv := range ann.Peers {
+		n := 0
+		for {
+			if sc.QuiescentStop != "none" && n == sc.PauseAfter {
+				n++
+				close(paused)
+				<-resume
+				continue
+			}
+			pv, ok := <-ann.Peers
+			if !ok {
+				return
+			}
+			n++
 			g := got{addr: pv.NodeInfo.Addr.String(), id: pv.NodeInfo.ID}
 			for _, p := range pv.Peers {
 				b, _ := p.MarshalBinary()
@@ -220,6 +244,35 @@ func runC16(sc C16Sc, c *kit.Case) *kit.Violation {
 			received = append(received, g)
 		}
 	}()
+	quiescentStopDone := false
+	pausedReached := false
+	if sc.QuiescentStop != "none" {
+		select {
+		case <-paused:
+			pausedReached = true
+		case <-consumerDone: // the traversal ended before the consumer got to its pause
+		}
+	}
+	if pausedReached {
+		// everything the traversal can do without its consumer has been done when the node is quiescent
+		if err := sv.C.Quiesce(barrierTimeout); err != nil {
+			close(resume)
+			c.Inconclusive = err.Error()
+			return nil
+		}
+		select {
+		case <-ann.Finished():
+			// the traversal had already ended: nothing to stop
+		default:
+			if sc.QuiescentStop == "close" {
+				ann.Close()
+			} else {
+				ann.StopTraversing()
+			}
+			quiescentStopDone = true
+		}
+		close(resume)
+	}
 	select {
 	case <-consumerDone:
 	case <-time.After(20 * time.Second):
@@ -267,6 +320,9 @@ func runC16(sc C16Sc, c *kit.Case) *kit.Violation {
 		if gotCount[k] > respCount[k] {
 			return kit.Violatef("C16:peers-fabricated-or-duplicated", "the peers channel delivered %q %d time(s); the simulated nodes sent such a get_peers response %d time(s)", k, gotCount[k], respCount[k])
 		}
+	}
+	if quiescentStopDone {
+		c.Label("quiescent-" + sc.QuiescentStop)
 	}
 	if sc.Stop == "none" || !stopDone {
 		var rkeys []string
@@ -362,7 +418,7 @@ func runC16(sc C16Sc, c *kit.Case) *kit.Violation {
 	for _, o := range tokenBearers {
 		distinctTokens[o.token] = true
 	}
-	if (len(tokenBearers) >= 9 && len(distinctTokens) >= 9 && announcing) || stopDone {
+	if (len(tokenBearers) >= 9 && len(distinctTokens) >= 9 && announcing) || stopDone || quiescentStopDone {
 		c.NonTrivial()
 	}
 	c.Label(fmt.Sprintf("announces-%d", bucketCount(len(dests))))
@@ -376,7 +432,7 @@ func runC16(sc C16Sc, c *kit.Case) *kit.Violation {
 
 func init() {
 	kit.Register("C16a",
-		"rapid: Server.Announce / AnnounceTraversal over 1..40 simulated nodes with IDs structured around the infohash (some answering under another ID than advertised), each answering get_peers with a distinct token / an empty token / no token / a non-string token / an error / nothing, with 0..5 `values`, and naming 0..5 neighbours; options port / implied port (also with port 0) / scrape / no announce; Close or StopTraversing injected before the reply to the n-th get_peers, or never; the consumer reads the peers channel to the end. Oracle: every announce_peer on the wire goes to a node that answered get_peers with a token in this traversal and was delivered on the peers channel, carries exactly that node's token, the infohash and the configured port / implied_port, at most once per node, to at most 8 nodes, each of which has fewer than 8 token-bearing responders strictly closer to the infohash; none when announcing is disabled; every get_peers response is delivered exactly once on the peers channel with the responder's address, ID and values (at most once, and nothing fabricated, when a stop was injected); the channel is closed, Finished() fires, no transaction is outstanding and nothing is sent afterwards. Non-trivial: >= 9 token-bearing responders with distinct tokens, or a stop injected mid-traversal.",
+		"rapid: Server.Announce / AnnounceTraversal over 1..40 simulated nodes with IDs structured around the infohash (some answering under another ID than advertised), each answering get_peers with a distinct token / an empty token / no token / a non-string token / an error / nothing, with 0..5 `values`, and naming 0..5 neighbours; options port / implied port (also with port 0) / scrape / no announce; Close or StopTraversing injected before the reply to the n-th get_peers (racing the replies), or applied at a quiescent point while the consumer has paused after n deliveries (racing nothing), or never; the consumer reads the peers channel to the end. Oracle: every announce_peer on the wire goes to a node that answered get_peers with a token in this traversal and was delivered on the peers channel, carries exactly that node's token, the infohash and the configured port / implied_port, at most once per node, to at most 8 nodes, each of which has fewer than 8 token-bearing responders strictly closer to the infohash; none when announcing is disabled; every get_peers response is delivered exactly once on the peers channel with the responder's address, ID and values (also when the stop was applied at a quiescent point; at most once, and nothing fabricated, when the stop raced the replies); the channel is closed, Finished() fires, no transaction is outstanding and nothing is sent afterwards. Non-trivial: >= 9 token-bearing responders with distinct tokens, or a stop injected mid-traversal.",
 		[]string{"with Close/StopTraversing injected, a reply racing the cancellation may be dropped by the library: exactly-once delivery is asserted only when no stop was injected", "an empty-string token may be echoed as an absent token (the wire type omits empty strings)"},
 		genC16, runC16)
 }
